@@ -104,6 +104,12 @@ Theorem C19_ann_offset_total : forall parent b e,
   ann_offset parent b e <> Panic /\ ann_offset parent b e <> Abort /\ ann_offset parent b e <> Hang.
 Proof. exact ann_offset_safe. Qed.
 
+(* a data set defined twice in merge mode: the merged set holds exactly the data of both
+   definitions under the keys they were declared with (first definition wins per id) *)
+Theorem C19_dataset_merge_spec : forall a b i k, distinct_ids (ds_data b) ->
+  In (i, k) (ds_data (ds_merge a b)) <-> spec_merged a b i k.
+Proof. exact ds_merge_spec. Qed.
+
 Theorem C19_include_stdin_total : forall stdin_open,
   include_stdin false stdin_open <> Panic /\ include_stdin false stdin_open <> Abort
   /\ include_stdin false stdin_open <> Hang.
